@@ -31,9 +31,9 @@ type xopt struct {
 	NoP        bool   `json:"noP,omitempty"`
 	LogQ       []int  `json:"logQ,omitempty"`
 	LogP       []int  `json:"logP,omitempty"`
-	Via        string `json:"via,omitempty"`   // reliteral | json | binary | newparams
-	Xe         string `json:"xe,omitempty"`    // tight | unit | wide | ternary | ternaryH
-	Xs         string `json:"xs,omitempty"`    // p50 | p05 | gauss | h1 | hN
+	Via        string `json:"via,omitempty"` // reliteral | json | binary | newparams
+	Xe         string `json:"xe,omitempty"`  // tight | unit | wide | ternary | ternaryH
+	Xs         string `json:"xs,omitempty"`  // p50 | p05 | gauss | h1 | hN
 	RlkSet     bool   `json:"rlkSet,omitempty"`
 	RlkLP      int    `json:"rlkLevelP,omitempty"`
 	RlkW       int    `json:"rlkW,omitempty"`
@@ -364,7 +364,7 @@ func drawX(r *eng.Rand, tier string, i int) (cfg, bool) {
 		case 4:
 			x.RlkLP, x.RlkW = 1, eng.Pick(r, 8, 20) // power-of-two base with two auxiliary primes: documented as ignored
 		case 5:
-			x.RlkLP, x.RlkW = 0, 1 + r.N(30)
+			x.RlkLP, x.RlkW = 0, 1+r.N(30)
 		}
 	case "mix":
 		x.Interleave, x.ElOp, x.Dirty = true, true, true
